@@ -178,6 +178,12 @@ func c01Run(c *mc.Ctx) {
 	if c.Mine() {
 		one(cv{K: "string", S: all}, true)
 		one(cv{K: "binary", S: all}, true)
+		// text with valid multi-byte UTF-8 (2-, 3-, 4-byte characters) of 1..40 bytes: byte-wise and rune-wise loops differ here
+		utf := []byte("é服😀aé服😀zz服务héllo😀😀")
+		for n := 1; n <= 40 && n <= len(utf); n++ {
+			one(cv{K: "string", S: utf[:n]}, n%7 == 0)
+			one(cv{K: "binary", S: utf[len(utf)-n:]}, false)
+		}
 	}
 	c.Done(fmt.Sprintf("strings/binaries of %d length classes 0..65537 with non-UTF-8 content (+ 6 lengths from 1 MiB to 33 MiB) + the 256-byte string 00..ff, every fragmentation policy up to 16385 bytes", len(c01StrLens)))
 	// (d) sequences of <= 3 values over a 14-kind alphabet, written back to back and read back in order
